@@ -295,7 +295,10 @@ impl C11 {
         if let Some(h0) = sc.first_step {
             let h0 = h0.abs();
             let cap = sc.max_step.map(|m| m.abs()).unwrap_or(f64::INFINITY).min(sc.span());
-            if h0 <= 0.95 * cap && o.cbs.len() >= 2 {
+            // (an exactly singular iteration matrix at the first attempt makes RADAU/BDF halve the
+            // step before any stage is evaluated: the RHS seam then shows the second trial)
+            let lu_failed = o.sites[ivp::verif::RADAU_LU_SINGULAR] + o.sites[ivp::verif::BDF_LU_FAIL] > 0;
+            if h0 <= 0.95 * cap && o.cbs.len() >= 2 && !lu_failed {
                 cov.bump("bounds.first_step_runs");
                 let seq1 = o.cbs[1].seam_seq;
                 let pre: Vec<&crate::env::OdeRec> = o.st.odes.iter().filter(|r| r.seq <= seq1 && !r.in_jac).collect();
@@ -360,7 +363,8 @@ impl C11 {
                 Meth::BDF => 1,
             };
             let calls: Vec<&crate::env::OdeRec> = o.st.odes.iter().filter(|r| !r.in_jac).collect();
-            if h0 <= 0.95 * cap && calls.len() > k && sc.faults.is_empty() {
+            let lu_failed = o.sites[ivp::verif::RADAU_LU_SINGULAR] + o.sites[ivp::verif::BDF_LU_FAIL] > 0;
+            if h0 <= 0.95 * cap && calls.len() > k && sc.faults.is_empty() && !lu_failed {
                 let reach = calls[1..=k].iter().fold(0.0f64, |m, r| m.max((r.t - sc.x0).abs()));
                 let dt0 = delta_t(sc, 0.0);
                 if (reach - h0).abs() > dt0 + 4.0 * EPS * h0 {
